@@ -90,7 +90,8 @@ def World.write (w : World) (ofd : Nat) (bytes : List Nat) : Option World :=
   if !d.wr then none
   else if f.kind == .dir then none
   else
-    let off := if d.app then f.content.length else d.off
+    -- `FileBody::size()` is 0 for a terminal, so an appending write to one lands at offset 0
+    let off := if d.app then (if f.kind == .reg then f.content.length else 0) else d.off
     some (setOfd (setFile w d.file { f with content := writeAt f.content off bytes }) ofd
             { d with off := off + bytes.length })
 
@@ -117,7 +118,7 @@ def World.message (w : World) (t : FdTable) : World :=
   | some e =>
     let d := ofdAt w e.ofd
     let f := fileAt w d.file
-    if d.wr && f.kind == .reg then setFile w d.file { f with tainted := true } else w
+    if d.wr && f.kind != .dir then setFile w d.file { f with tainted := true } else w
 
 def World.deny (w : World) : World × Bool :=
   ({ w with allocs := w.allocs + 1 }, w.denyAt == some w.allocs)
